@@ -101,6 +101,8 @@ pub struct Profile {
     pub external_only: bool,
     /// percentage of enums that are plain unit enums (usable as map keys / set elements)
     pub unit_enum_bias: u32,
+    /// keep empty lines inside block-style docs (a listed finding of the same-file merge)
+    pub blank_block_lines: bool,
 }
 
 impl Profile {
@@ -137,6 +139,7 @@ impl Profile {
             known_wrappers: false,
             external_only: false,
             unit_enum_bias: 0,
+            blank_block_lines: false,
         }
     }
 }
@@ -183,6 +186,9 @@ const DOC_LINES: &[&str] = &[
     " trailing spaces   ",
     " a very long line: Lorem ipsum dolor sit amet, consectetur adipiscing elit, sed do eiusmod tempor incididunt ut labore et dolore magna aliqua. Ut enim ad minim veniam, quis nostrud exercitation ullamco laboris nisi ut aliquip ex ea commodo consequat.",
     " glob src/**/mod.rs",
+    " format placeholders {0} {1} {2} and {{doubled}} braces",
+    " json like {\"a\": [1, 2]} in a doc",
+    " percent %s and dollar ${x} and `${y}`",
 ];
 const DOC_NASTY: &[&str] = &[" closes */ early", " glob **/*.rs here", " */"];
 
@@ -231,6 +237,7 @@ struct Cx<'p> {
     types: Vec<TypeDef>,
     /// definitions already flattened into the container (struct / struct variant) being generated
     flattened_here: std::collections::BTreeSet<usize>,
+    doc_counter: usize,
 }
 
 fn has_default(ty: &TyExpr) -> bool {
@@ -549,6 +556,10 @@ impl Cx<'_> {
         }
         let n = 1 + t.choose(3);
         let mut lines: Vec<String> = (0..n).map(|_| t.pick(DOC_LINES).to_string()).collect();
+        // a unique marker per doc comment: lets the checks find the comment of an item without
+        // having to predict the emitted property name
+        self.doc_counter += 1;
+        lines[0] = format!(" [doc#{}]{}", self.doc_counter, lines[0]);
         if inner && self.p.doc_merge_safe {
             lines.retain(|l| !l.contains("export type"));
             if lines.is_empty() {
@@ -564,14 +575,19 @@ impl Cx<'_> {
             _ => DocStyle::Block,
         };
         if style == DocStyle::Block {
-            // a block comment cannot contain `*/` in Rust either
-            lines.retain(|l| !l.contains("*/"));
+            // (rendered as one multi-line `#[doc = ".."]` attribute, so `*/` is allowed in it)
             if !self.p.nasty_docs {
+                lines.retain(|l| !l.contains("*/"));
+            }
+            if !self.p.blank_block_lines {
                 lines.retain(|l| !l.trim().is_empty());
             }
             if lines.is_empty() {
                 lines.push(" block".into());
             }
+        }
+        if !lines.iter().any(|l| l.contains("[doc#")) {
+            lines.insert(0, format!(" [doc#{}]", self.doc_counter));
         }
         Some(Doc { lines, style })
     }
@@ -946,7 +962,7 @@ pub fn prim_ts(p: &str) -> &'static str {
 /// Generate one module from a tape.
 pub fn gen_module(words: &[u32], profile: &Profile, name: &str) -> Module {
     let mut t = Tape::new(words);
-    let mut cx = Cx { p: profile, names: Names::new(), types: vec![], flattened_here: Default::default() };
+    let mut cx = Cx { p: profile, names: Names::new(), types: vec![], flattened_here: Default::default(), doc_counter: 0 };
     let n = 1 + t.choose(profile.max_types);
     for _ in 0..n {
         let td = cx.gen_type(&mut t);
